@@ -258,3 +258,34 @@ func constantInt(o *types.Const) (int64, bool) {
 	}
 	return n, true
 }
+
+// withPackageHelpers returns f with its closures and the declared functions of package pkgRel that f
+// calls statically (transitively up to depth levels), each with its closures.
+func (c *Ctx) withPackageHelpers(f *ssa.Function, pkgRel string, depth int) []*ssa.Function {
+	seen := map[*ssa.Function]bool{}
+	var out []*ssa.Function
+	var add func(g *ssa.Function, d int)
+	add = func(g *ssa.Function, d int) {
+		for _, h := range engine.WithClosures(g) {
+			if seen[h] {
+				continue
+			}
+			seen[h] = true
+			out = append(out, h)
+			if d >= depth {
+				continue
+			}
+			for _, cs := range engine.Calls(h) {
+				sc := cs.Common().StaticCallee()
+				if sc == nil || len(sc.Blocks) == 0 || sc.Parent() != nil || seen[sc] {
+					continue
+				}
+				if strings.HasSuffix(engine.PkgPathOf(sc), pkgRel) {
+					add(sc, d+1)
+				}
+			}
+		}
+	}
+	add(f, 0)
+	return out
+}
